@@ -59,6 +59,20 @@ func (e *corpusEntry) word(name string) (uint64, bool) {
 	return parseHexBig(s).Uint64(), true
 }
 
+// wide returns the 48-byte string of a Wide48 entry, or nil.
+func (e *corpusEntry) wide() []byte {
+	raw, ok := e.Inputs["data"]
+	if !ok {
+		return nil
+	}
+	var h string
+	if json.Unmarshal(raw, &h) != nil || len(h) != 96 {
+		return nil
+	}
+	out := parseHexBig(h).FillBytes(make([]byte, 48))
+	return out
+}
+
 // arrays returns the four-limb inputs in name order.
 func (e *corpusEntry) arrays() []*big.Int {
 	var out []*big.Int
